@@ -464,6 +464,11 @@ func (p *specParser) primary() *SExpr {
 			p.expect(")")
 			return e
 		}
+		if t.text == "[" && p.isOp("]") {
+			// a slice type used as an argument of istype / astype
+			p.next()
+			return &SExpr{Kind: "ident", Name: "[]" + p.typ()}
+		}
 	}
 	p.p--
 	p.fail("unexpected %q", t.text)
